@@ -1039,6 +1039,6 @@ FINDING_MATCHERS = {
 
 
 SUBCHECKS = [
-    HypSub("ordered", _ordered_case, _check, _classify, budget={"quick": 5000, "thorough": 120000}),
-    HypSub("shuffled", _shuffled_case, _check, _classify, budget={"quick": 2000, "thorough": 40000}),
+    HypSub("ordered", _ordered_case, _check, _classify, budget={"quick": 5000, "thorough": 100000}),
+    HypSub("shuffled", _shuffled_case, _check, _classify, budget={"quick": 2000, "thorough": 32000}),
 ]
